@@ -339,12 +339,10 @@ def _dec_prim(p, doc, st):
         if 'max_length' in a and len(doc) > a['max_length']:
             raise Rej('longer than max_length')
         if 'pattern' in a:
-            # compiler and runtime agree that the pattern is anchored at the start; whether it must
-            # also reach the end is only pinned by the runtime
-            if re.match('(?:' + a['pattern'] + ')', doc) is None:
-                raise Rej('pattern does not match')
+            # the runtime validator anchors the pattern at both ends (\A(?:p)\Z; test_python_gen pins 'abc_'
+            # as invalid for a lower-case pattern): the whole string must match, a trailing newline included
             if re.fullmatch('(?:' + a['pattern'] + ')', doc) is None:
-                _unspec(st, 'pattern matches a prefix of the string only')
+                raise Rej('pattern does not match')
         return doc
     if n in INT_RANGES:
         if isinstance(doc, bool):
